@@ -253,6 +253,9 @@ class Verifier:
                 for name, efn in c.ensures:
                     ctx.oblige(f'{short}/post/{name}', it.truth(calls.eval_clause(it, efn, ns)),
                                where=short)
+                if c.functional:
+                    spec_val = calls.eval_clause(it, c.result_fn, ns_old)
+                    ctx.oblige(f'{short}/post/result', it.eq(result, spec_val), where=short)
                 for exc, (kind, cfn) in c.raises.items():
                     if kind == 'iff' and cfn is not None:
                         ctx.oblige(f'{short}/noexc/{exc.__name__}',
